@@ -49,7 +49,7 @@ def _canon_attrs(chk, d):
             continue
         r = _repr_j(v)
         if r is None:       # floats, dicts, lists: not part of the library either
-            chk.count('mapping_attr_not_compared')
+            chk.count('mapfile_attr_not_compared')
             continue
         out.append([k, r])
     return out
@@ -125,7 +125,11 @@ def run_real(chk, lines, ffs):
             for n, m in d2.items():
                 idx = [i for i, x in enumerate(emitted) if x is m]
                 keys.append([f, t, list(n), idx[0] if idx else -1])
-    return enc([[dump_mapping(chk, m) for m in emitted], keys]), emitted, keys, None
+    try:
+        im = enc([[dump_mapping(chk, m) for m in emitted], keys])
+    except Exception as e:      # not representable: never equal to a model answer
+        im = 'undumpable %r' % (e,)
+    return im, emitted, keys, None
 
 
 # ----------------------------------------------------------------------------------------------
@@ -496,6 +500,74 @@ def inject(rng, secs, fault):
     return fault
 
 
+def exotic(rng, secs):
+    """insert constructs whose outcome the generator does not predict (Choice values, null, bool/int
+    equality, overriding attributes, odd integers, empty names, several force-field lines ...): the model
+    must still agree with the code"""
+    cands = [s for s in secs if not s.empty]
+    if not cands:
+        return False
+    s = rng.choice(cands)
+    subs = s.subs
+
+    def idx(name):
+        return [i for i, (n, _) in enumerate(subs) if n == name]
+    d = rng.choice(['from', 'to'])
+    o = 'to' if d == 'from' else 'from'
+    uses, other = s.uses[d], s.uses[o]
+    atoms = sorted({n['atomname'] for n in s.nodes[d]})
+    oatoms = sorted({n['atomname'] for n in s.nodes[o]})
+    at, oat = rng.choice(atoms), rng.choice(oatoms)
+    oid = rng.choice(other).ident
+
+    def mline(spec):
+        a, b = (spec, '%s:%s' % (oid, oat)) if d == 'from' else ('%s:%s' % (oid, oat), spec)
+        return '%s %s%s' % (a, b, rng.choice(['', ' +3', ' -0', ' 007', ' 2 extra columns', ' 1 {"a": 1}']))
+    rn = rng.choice(uses).resname
+    for _ in range(1 if rng.random() < 0.8 else 2):
+        k = rng.randrange(12)
+        s.exotic = getattr(s, 'exotic', []) + [k]
+        bi, mi = idx(d + ' blocks')[0], idx('mapping')[-1]
+        if k == 0:     # Choice as a template
+            subs[bi][1].append('!ANY {"resname": "%s|XYZ"}' % rn)
+            subs[mi][1].append(mline('ANY:' + at))
+        elif k == 1:   # null resname: nothing is fetched, the template asks for "no resname"
+            subs[bi][1].append('NUL {"resname": null, "resid": %d}' % rng.randint(1, 2))
+            subs[mi][1].append(mline('NUL:' + at))
+        elif k == 2:   # bool == int
+            subs[bi][1].append('!FLG {"flag": %s}' % rng.choice(['1', 'true', '0', 'false']))
+            subs[mi][1].append(mline('FLG:' + rng.choice(['O', at])))
+        elif k == 3:   # attributes given on a node line override those of the identifier
+            u = rng.choice(uses)
+            extra = rng.choice(['{"atomname": "OTHER"}', '{"resid": 7}', '{"resname": "%s|Q"}' % rn,
+                                '{"resid": true}', '{}'])
+            subs.insert(mi, (d + ' nodes', ['%s:NEW %s' % (u.ident, extra)]))
+            subs[mi + 1][1].append(mline('%s:%s' % (u.ident, rng.choice(['NEW', 'OTHER']))))
+        elif k == 4:   # empty names
+            subs[mi][1].append(mline(rng.choice(['%s:' % rng.choice(uses).ident, ':' + at, ':'])))
+        elif k == 5:   # several force-field lines: the last one counts
+            subs[idx(d)[0]][1].insert(0, rng.choice(['nosuchff', s.ff[o]]))
+        elif k == 6:   # odd shorthand integers
+            subs[bi][1].append(rng.choice(['%s#+9', '%s#09', '%s#x', '%s#1#2', '%s#', '!%s#9', '!!%s']) % rn)
+        elif k == 7:   # three tokens: not the longhand form
+            subs[bi][1].append('ID {"resname": "%s"} x' % rn)
+        elif k == 8:   # identifier defined twice
+            u = rng.choice(uses)
+            subs[bi][1].append('!%s {"resname": "%s", "resid": %d}' % (u.ident.lstrip('!'), rn, rng.randint(1, 3)))
+            subs[mi][1].append(mline('%s:%s' % (u.ident, at)))
+        elif k == 9:   # nodes added to a direction whose blocks come later / a second blocks section
+            subs.insert(mi, (d + ' blocks', [rng.choice(sorted(SPEC[s.ff[d]]['blocks' if s.kind == 'block' else 'mods']))]))
+        elif k == 10:  # an edge given twice / reversed, an edge with attributes that are not a dictionary
+            if len(s.addr[d]) >= 2:
+                a, b = rng.sample(s.addr[d], 2)
+                ra, rb = '%s:%s' % (uses[a[0]].ident, a[1]), '%s:%s' % (uses[b[0]].ident, b[1])
+                subs.insert(mi, (d + ' edges', ['%s %s' % (ra, rb), '%s %s%s' % (rb, ra, rng.choice(['', ' {"x": 1}', ' x', ' {"x": 1} {"y": 2}']))]))
+        else:          # reference atoms in odd shapes
+            subs.append(('reference atoms', [rng.choice(['%s:%s' % (oid, oat), '%s %s:%s extra' % (at, oid, oat),
+                                                         '%s:%s %s' % (oid, oat, at) if d == 'from' else '%s %s:%s' % (at, oid, oat)])]))
+    return True
+
+
 def render_faulty(rng, secs, macros):
     """render() that understands the two special sub-section names used by inject()"""
     out = render(rng, secs, macros)
@@ -515,6 +587,8 @@ def render_faulty(rng, secs, macros):
 # oracle: what the file declares (from the AST) against what the real reader loaded
 # ----------------------------------------------------------------------------------------------
 def node_id(g, k):
+    if k not in g.nodes:
+        return ('no such node', k)
     a = g.nodes[k]
     return (a.get('resname'), a.get('resid'), a.get('atomname'))
 
@@ -575,8 +649,67 @@ def check_table(chk, ask):
     mo = ask([ln])[0]
     if mo is not None:      # compare as sets of rows: the order of a dict's keys is not behaviour
         mo = enc(sorted(dec(mo)[0], key=repr))
-    chk.count('mapping_table')
+    chk.count('mapfile_table')
     chk.case('mapping-table', ln, enc(sorted(rows, key=repr)), mo, [], True)
+
+
+# directed cases: (name, lines, expected number of mappings | 'error')
+_B = ['[ block ]', '[ from ]', 'aa', '[ to ]', 'cg']
+_FT = ['[ from blocks ]', 'ALA', '[ to blocks ]', 'ALA']
+CORPUS = [
+    ('empty-file', [], 0),
+    ('comments-only', ['; nothing', '', '   ; x'], 0),
+    ('header-only', ['[ block ]'], 1),
+    ('two-headers', ['[ block ]', '[ modification ]'], 2),
+    ('kind-then-unknown-header', ['[ block ]', '[ foo ]'], 1),
+    ('kind-then-unknown-content', ['[ block ]', '[ foo ]', 'bar'], 'error'),
+    ('unknown-then-kind', ['[ foo ]', '[ block ]', '[ from ]', 'aa'], 1),
+    ('macros-in-the-middle', _B + _FT + ['[ macros ]', 'X CA', '[ mapping ]', '$X BB'], 'error'),
+    ('macros-between', ['[ macros ]', 'X CA'] + _B + _FT + ['[ mapping ]', '$X BB', '[ macros ]', 'Y N', '[ block ]'] + _B[1:] + _FT +
+     ['[ mapping ]', '$Y BB', '$X SC1 3'], 2),
+    ('macro-redefined', ['[ macros ]', 'X CA', 'X N'] + _B + _FT + ['[ mapping ]', '$X BB'], 1),
+    ('macro-bad-definition', ['[ macros ]', 'X'] + _B, 'error'),
+    ('molecule-header-only', ['[ molecule ]'] + _B + _FT + ['[ mapping ]', 'CA BB'], 1),
+    ('molecule-content', ['[ molecule ]', 'ALA'], 'error'),
+    ('ff-with-spaces', ['[ block ]', '[ from ]', 'a a', '[ to ]', 'cg'], 1),
+    ('ff-with-spaces-fetch', ['[ block ]', '[ from ]', 'a a', '[ from blocks ]', 'ALA'], 'error'),
+    ('no-from-ff', ['[ block ]', '[ from blocks ]', 'ALA'], 'error'),
+    ('no-fetch-needs-no-ff', ['[ block ]', '[ from blocks ]', '!ALA', '[ from nodes ]', 'CA', '[ to blocks ]', '!X', '[ to nodes ]',
+                              'B', '[ mapping ]', 'CA B 4'], 1),
+    ('separate-lines-restart-resid', _B + ['[ from blocks ]', 'ALA#1 ALA#2', 'GLY', '[ to blocks ]', 'ALA', '[ mapping ]', 'GLY:CA BB'], 'error'),
+    ('one-line-counts-on', _B + ['[ from blocks ]', 'ALA#1 ALA#2 GLY', '[ to blocks ]', 'ALA', '[ mapping ]', 'GLY:CA BB'], 1),
+    ('float-weight', _B + _FT + ['[ mapping ]', 'CA BB 0.5'], 'error'),
+    ('weight-extra-columns', _B + _FT + ['[ mapping ]', 'CA BB 2 what ever'], 1),
+    ('two-residue-block', _B + ['[ from blocks ]', 'D {"resname": "DIP"}', 'ALA#3', '[ to blocks ]', 'DIP ALA#3', '[ mapping ]',
+                                'D:A2 DIP:BB1', 'ALA#3:CA ALA#3:BB', 'D:A1 DIP:BB1 0'], 1),
+    ('empty-block-first', _B + ['[ from blocks ]', 'EMP', 'ALA', '[ to blocks ]', 'ALA', '[ mapping ]', 'ALA:CA BB'], 1),
+    ('empty-block-later', _B + ['[ from blocks ]', 'ALA EMP GLY#2', '[ to blocks ]', 'ALA', '[ mapping ]', 'GLY#2:CA BB'], 1),
+    ('nodes-then-empty-block', _B + ['[ from blocks ]', '!T', '[ from nodes ]', 'H', '[ from blocks ]', 'EMP'], 'error'),
+    ('modification-type', ['[ modification ]', '[ from ]', 'aa', '[ to ]', 'cg', '[ from blocks ]', 'C-ter', '[ to blocks ]', 'C-ter',
+                           '[ mapping ]', 'OXT BB', '[ block ]'] + _B[1:] + _FT + ['[ mapping ]', 'N BB'], 2),
+    ('reference', _B + _FT + ['[ mapping ]', 'CA BB', 'N BB', '[ reference atoms ]', 'BB CA'], 1),
+    ('reference-ambiguous-by-name-only', _B + ['[ from blocks ]', 'ALA GLY', '[ to blocks ]', 'ALA', '[ mapping ]', 'ALA:CA BB',
+                                              'GLY:CA BB', '[ from blocks ]', '!Z {"atomname": "CA"}', '[ reference atoms ]', 'BB Z:CA'], 'error'),
+    ('reference-not-mapped', _B + _FT + ['[ mapping ]', 'CA BB', '[ reference atoms ]', 'BB N'], 'error'),
+    ('unbalanced', ['[ block'], 'error'),
+    ('case-and-spaces', ['[BLOCK]', '[  From ]', 'aa', '[TO]', 'cg'] + _FT + ['[ MAPPING ]', 'CA BB'], 1),
+    ('inner-spaces', ['[ block ]', '[ from  blocks ]', 'ALA'], 'error'),
+    ('comment-in-line', _B + _FT + ['[ mapping ] ; sec', 'CA BB ; 7', 'N BB 2; 3'], 1),
+]
+
+
+def run_corpus(chk, ask):
+    from vermouth.ffinput import read_ff
+    ffs = toy_ffs()
+    read_ff(['[ moleculetype ]', 'EMP 3'], ffs['aa'])        # a block without atoms
+    lib = library(ffs)
+    reqs = [line('mapping', 'read', lib, ls) for _, ls, _ in CORPUS]
+    for (name, ls, want), ln, mo in zip(CORPUS, reqs, ask(reqs)):
+        im, emitted, _keys, exc = run_real(chk, ls, ffs)
+        got = 'error' if emitted is None else len(emitted)
+        errs = [] if got == want else ['corpus case %s: expected %r, the reader gives %r (%s)' % (name, want, got, exc)]
+        chk.count('mapfile_corpus')
+        chk.case('mapping-corpus-' + name, {'lines': ls, 'req': 'mapping read <toy library + EMP> <lines>'}, im, mo, errs, True)
 
 
 def run_generated(chk, ask, ffs):
@@ -596,6 +729,8 @@ def run_generated(chk, ask, ffs):
                 fault = inject(rng, secs, 'unbalanced_header')
             if fault is None:
                 mode = 'valid'
+        if mode == 'valid' and 0.72 < k <= 0.85 and exotic(rng, secs):
+            mode = 'exotic'      # no expectation either
         lines = render_faulty(rng, secs, macros)
         if mode == 'valid' and k > 0.85:
             mode = 'mutant'      # no expectation: the model must still agree with the code
@@ -621,7 +756,10 @@ def run_generated(chk, ask, ffs):
             if emitted is None:
                 errs.append('valid file rejected (%s)' % exc)
             else:
-                errs += oracle(secs, emitted)
+                try:
+                    errs += oracle(secs, emitted)
+                except Exception as e:     # the loaded objects are not even well formed
+                    errs.append('the oracle could not inspect the loaded mappings: %r' % (e,))
                 # read_mapping_file: one entry per (ff_from, ff_to, names), holding the LAST such section
                 want = {}
                 for si, s in enumerate(secs):
@@ -630,20 +768,24 @@ def run_generated(chk, ask, ffs):
                 if got != want:
                     errs.append('read_mapping_file holds %r, declared %r' % (got, want))
                 if len(want) < len(secs):
-                    chk.count('mapping_key_collision')
+                    chk.count('mapfile_key_collision')
         elif mode == 'fault':
             if emitted is not None:
                 errs.append('fault %s: the reader did not raise' % fault)
-        chk.count('mapping_' + mode)
+        chk.count('mapfile_' + mode)
         if fault:
-            chk.count('mapping_fault_' + fault)
-        if mode == 'mutant':
-            chk.count('mapping_mutant_' + ('error' if emitted is None else 'ok'))
+            chk.count('mapfile_fault_' + fault)
+        if mode == 'exotic':
+            for s in secs:
+                for k in getattr(s, 'exotic', []):
+                    chk.count('mapfile_exotic_kind%d_%s' % (k, 'error' if emitted is None else 'ok'))
+        if mode in ('mutant', 'exotic'):
+            chk.count('mapfile_%s_%s' % (mode, 'error' if emitted is None else 'ok'))
         if emitted is not None:
-            chk.count('mapping_sections_%d' % len(emitted))
-            chk.count('mapping_entries', sum(len(d) for m in emitted for d in m.mapping.values()))
+            chk.count('mapfile_sections_%d' % len(emitted))
+            chk.count('mapfile_entries', sum(len(d) for m in emitted for d in m.mapping.values()))
             for m in emitted:
-                chk.count('mapping_type_' + m.type)
+                chk.count('mapfile_type_' + m.type)
         chk.case('mapping-%d' % i, {'lines': lines, 'req': 'mapping read <toy library> <lines>'}, im, mo, errs,
                  mode == 'fault' or (emitted is not None and len(emitted) >= 2))
 
@@ -672,8 +814,19 @@ def run_shipped(chk, ask):
                         and t.split(';')[0].strip().startswith('['))
             if len(emitted) != ndecl:
                 errs.append('%s: %d sections declared, %d mappings loaded' % (rel, ndecl, len(emitted)))
-            chk.count('mapping_shipped_mappings', len(emitted))
-        chk.count('mapping_shipped_files')
+            chk.count('mapfile_shipped_mappings', len(emitted))
+            # read_mapping_file keeps one mapping per (ff_from, ff_to, names): a second declaration of a key
+            # replaces the first one; identical copies are counted, different ones are a lost declaration
+            seen = {}
+            for m in emitted:
+                key, dump = (m.ff_from, m.ff_to, m.names), enc(dump_mapping(chk, m))
+                if key in seen:
+                    chk.count('mapfile_shipped_redeclared_' + ('identical' if seen[key] == dump else 'DIFFERENT'))
+                    if seen[key] != dump:
+                        errs.append('%s: %r is declared twice with different content; read_mapping_file keeps the '
+                                    'last one only' % (rel, key))
+                seen[key] = dump
+        chk.count('mapfile_shipped_files')
         chk.case('mapping-shipped-' + rel, 'mapping read <shipped library> ' + rel, im, mo, errs, True)
 
 
@@ -685,6 +838,7 @@ def run_mapping(chk, ask):
     for name, ff in ffs.items():
         for k, b in list(ff.blocks.items()) + list(ff.modifications.items()):
             assert k == b.name and b.force_field is ff
+    run_corpus(chk, ask)
     run_generated(chk, ask, ffs)
     if chk.thorough:
         run_shipped(chk, ask)
